@@ -19,8 +19,8 @@ P = {
   "Lean 4 proof (model = grammar spec) + exhaustive/random differential correspondence model vs Set.Filter",
   "DESIGN.md §5 C17"),
  "C03": (True,
-  "Lean theorems: the modelled rule interpreter (mirror of UnpackRule / verifyMatchRule / VerifyArtifacts incl. in-place clean-up) equals a pointwise declarative specification of the in-toto queue algorithm for every rule list, queue and link context with clean artifact names (interpreter_eq_spec), plus corollaries (exact consumption, order, DISALLOW/REQUIRE failure conditions, permutation invariance, MATCH prefix and hash requirements, rule grammar incl. case-insensitivity, malformed rule = error), and at the level of VerifyArtifacts: an item is accepted iff it has a link, both rule lists parse and the spec accepts materials and products against the created/deleted/modified sets of its own link; all items iff each; item order irrelevant. The model is run beside the real VerifyArtifacts/UnpackRule on a small universe with EVERY rule list of length <= 2 over a 42-rule alphabet, on random larger instances (incl. unclean paths, nil maps) and on mutated token lists.",
-  COMMON_NOTE + "reflect.DeepEqual on hash maps is modelled as equality of sorted association lists with nil kept distinct; artifact-name collisions after path cleaning (order-dependent in Go) are outside the model's domain.",
+  "Lean theorems: the modelled rule interpreter (mirror of UnpackRule / verifyMatchRule / VerifyArtifacts incl. the clean-up of artifact names on copies of the link maps) equals a pointwise declarative specification of the in-toto queue algorithm for every rule list, queue and link context with clean artifact names (interpreter_eq_spec) - and for ALL artifact names VerifyArtifacts accepts iff every item meets the specification on the links with cleaned names (all_items_verified_iff_spec_all_names, via path.Clean idempotent and verdict_is_verdict_on_cleaned_links; findings F20-F22 found at the points the former hypothesis excluded, repaired), plus corollaries (exact consumption, order, DISALLOW/REQUIRE failure conditions, permutation invariance, MATCH prefix and hash requirements, rule grammar incl. case-insensitivity, malformed rule = error), and at the level of VerifyArtifacts: an item is accepted iff it has a link, both rule lists parse and the spec accepts materials and products against the created/deleted/modified sets of its own link; all items iff each; item order irrelevant. The model is run beside the real VerifyArtifacts/UnpackRule on a small universe with EVERY rule list of length <= 2 over a 42-rule alphabet, on random larger instances (incl. unclean paths, nil maps), on directed streams of names that clean to one name (13 runs each, no verdict may vary) and of one file recorded under a not-clean name on both sides of a link, and on mutated token lists; the op also reports whether the caller's links are as they were.",
+  COMMON_NOTE + "reflect.DeepEqual on hash maps is modelled as equality of sorted association lists with nil kept distinct; on a collision of artifact names after path cleaning the entry whose recorded name sorts last survives (Go: sort.Strings; model: strLt), proved order-independent in C10.",
   "Lean 4 proof (interpreter = declarative queue spec) + exhaustive-small-universe/random differential correspondence model vs VerifyArtifacts",
   "DESIGN.md §5 C03"),
  "C11": (True,
@@ -68,7 +68,7 @@ P = {
   PIPE + "C09 scenarios: 0-3 inspections from a catalogue of real shell commands (no-op, create/modify/delete, exit 1..255, effect then exit, killed by signal, missing executable, empty argv), final product directory equal to the last step's products or with one file added/removed/modified, with and without run directory (incl. missing/empty). Theorems: layout order, exit 0, all-or-prefix execution; at pipeline level acceptance implies that exactly all inspections ran in order after what ran before/in sublayouts, each started and exit 0; the last stage accepts iff links agree, step rules hold, inspections pass and inspection rules hold over the links the inspections just recorded.",
   COMMON_NOTE + "What `sh` does for a catalogue command is assumed to be what the catalogue says (create/modify/delete/exit).", "Lean 4 proof over pipeline model + differential correspondence with real inspection commands", "DESIGN.md §5 C09"),
  "C04": (True,
-  "Lean model of signing histories over symbolic signatures (Metablock.Sign, Envelope.Sign, SetPayload, VerifySignature, dump+load, mutation, corruption); theorems: sign-then-verify succeeds in both wrappers for every reachable state (under the stated no-stale-signature hypothesis), later signatures keep earlier verifications, verification succeeds only with a signature by that key's material over exactly the current signed bytes (hence fails after any content change and under any other key), the signed bytes are canonical JSON resp. the DSSE PAE. Every run replays ALL operation sequences up to length L plus random longer histories through the real library and the model, checks every signature the library emits with crypto/* over cjson/PAE bytes and offers crypto/*-made signatures to the library, across RSA-2048, P-224/256/384/521 and Ed25519.",
+  "Lean model of signing histories over symbolic signatures (Metablock.Sign, Envelope.Sign, SetPayload, VerifySignature, dump+load, mutation, corruption); theorems: sign-then-verify succeeds in both wrappers for every reachable state (under the stated no-stale-signature hypothesis), later signatures keep earlier verifications, verification succeeds only with a signature by that key's material over exactly the current signed bytes (hence fails after any content change - also one made IN PLACE in nested content, op poke - and under any other key), the signed bytes are canonical JSON resp. the DSSE PAE. Every run replays ALL operation sequences up to length L plus random longer histories through the real library and the model, checks every signature the library emits with crypto/* over cjson/PAE bytes and offers crypto/*-made signatures to the library, across RSA-2048, P-224/256/384/521 and Ed25519.",
   COMMON_NOTE + "The primitives themselves (RSA-PSS, ECDSA, Ed25519) are Go's crypto/*; perfect-signature abstraction in the model. Re-signing changed content with the SAME key id (stale first signature in the legacy wrapper) is excluded by hypothesis NoStale, see DESIGN.md.",
   "Lean 4 proof (history invariants over symbolic signatures) + exhaustive/random differential histories with independent crypto",
   "DESIGN.md §5 C04"),
@@ -78,7 +78,7 @@ P = {
   "Lean 4 proof (explicit panic outcomes unreachable, totality) + outcome-class correspondence + byte-mutation crash search",
   "DESIGN.md §5 C15"),
  "C10": (True,
-  "Lean: every Go map the implementation ranges over is an explicit list in the model; theorems give invariance under ANY permutation for each of them (verifier keys, loaded links per step incl. the number counted, reference link of the reduction, artifact queue, parameter dictionary, constraint values), and a history of verifications is the pointwise application of one pure function. Every run verifies generated chains (mixed key/certificate steps, parameterised rules) 2-4 times on the SAME in-memory objects with equal/different parameters, every history repeated 4x (12x thorough), serialising the caller's layout, keys and signatures before and after each call.",
+  "Lean: every Go map the implementation ranges over is an explicit list in the model; theorems give invariance under ANY permutation for each of them (verifier keys, loaded links per step incl. the number counted, reference link of the reduction, artifact queue, ARTIFACT MAPS (clean-up of names: every look-up in the cleaned map and the consumed set of a whole MATCH rule are the same for all listings of one map; the survivor on a collision is characterised), parameter dictionary, constraint values), rule verification hands back the links it was given for ALL artifact names (rule_verification_leaves_links_untouched), and a history of verifications is the pointwise application of one pure function. Every run verifies generated chains (mixed key/certificate steps, parameterised rules) 2-4 times on the SAME in-memory objects with equal/different parameters, every history repeated 4x (12x thorough), serialising the caller's layout, keys and signatures before and after each call, reading the process's working directory before and after; plus artifact maps with colliding names verified 13x on fresh maps.",
   COMMON_NOTE + "Purity of the model is by construction (effects are explicit outputs); that the Go code has no further hidden state is what the repeated-history correspondence checks.",
   "Lean 4 proof (permutation invariance per map, pure-function histories) + repeated-history differential correspondence",
   "DESIGN.md §5 C10"),
